@@ -5,7 +5,7 @@
    names, types, scopes and keys are universally quantified with no bound.
    history_wf = the configured stale window (initially and after every reload) is not negative. *)
 From Coq Require Import List ZArith NArith Bool.
-From Dae Require Import C08_Spec C08_Model C08_Proofs C08_Ttl C08_Lru C08_LruStore C08_Keys C08_RefreshProofs.
+From Dae Require Import C08_Spec C08_Model C08_Proofs C08_Ttl C08_Lru C08_LruStore C08_Keys C08_RefreshProofs C08_LifecycleProofs.
 Import ListNotations.
 Open Scope Z_scope.
 
@@ -83,6 +83,27 @@ Theorem C08_single_refresh_loadstore_refuted :
   one_claim_per_cycle false (snd (rrun VLoadStore {| r_flag := false; r_pcs := [LStart; LStart] |} [0; 1; 0; 1]%nat)) = false.
 Proof. exact loadstore_refuted_proof. Qed.
 Print Assumptions C08_single_refresh_loadstore_refuted.
+
+(* The refresh life cycle with replacement entries, at atomic granularity.  The flag lives on the entry; a
+   thread is a lookup (map Load, then the CAS on the entry it found) followed, when it claimed, by the refresh
+   it starts: the upstream work ends with no answer or with dnsCache.Store of a new entry (already stale: TTL 0
+   or fixed_domain_ttl 0, both stored by the insert path; or fresh), then backgroundRefresh's deferred block.
+   Full statement: under every schedule at most one refresh of the key is in flight (claimed, upstream work
+   not ended).  It is FALSE of the code, whose deferred block looks the key up again and clears the flag of
+   whatever entry the map holds then (VCurrent): R1 stores an already-stale E2, a second lookup claims E2 (R2 in
+   flight), R1's deferred block clears E2's flag, a third lookup claims E2 again - R2 and R3 in flight. *)
+Definition C08_refresh_lifecycle_full : Prop :=
+  forall (outcomes : list outcome) (sched : list nat), trun_ok VCurrent (tinit outcomes) sched = true.
+Theorem C08_refresh_lifecycle_refuted : ~ C08_refresh_lifecycle_full.
+Proof. exact lifecycle_full_refuted_proof. Qed.
+Print Assumptions C08_refresh_lifecycle_refuted.
+(* witness: threads [stores a stale answer; fails; fails], schedule 0 0 0 1 1 0 0 0 2 2 *)
+(* Partial: when the deferred block clears only the entry that was claimed, and only while the map still holds
+   that entry (VClaimedIfCurrent), the clause holds for any number of threads, any outcomes, every schedule. *)
+Theorem C08_refresh_lifecycle_partial :
+  forall (outcomes : list outcome) (sched : list nat), trun_ok VClaimedIfCurrent (tinit outcomes) sched = true.
+Proof. exact lifecycle_partial_proof. Qed.
+Print Assumptions C08_refresh_lifecycle_partial.
 
 (* TTL truthfulness of the in-place fill: the shown TTL never exceeds max 1 (floor remaining) + slack. *)
 Theorem C08_fill_ttl_truthful : forall d now, now < d -> ttl_ok d now (ttl_from_deadline d now) = true.
